@@ -173,6 +173,7 @@ struct Sim {
       case OP_M_ASSIGN: case OP_M_ASSIGN_EIGEN: case OP_M_MOVE_ASSIGN: case OP_M_COEFFWRITE: case OP_COEFFS:
       case OP_TM_ASSIGN: case OP_TM_ASSIGN_EIGEN: case OP_TM_COEFFWRITE: case OP_TM_SETZERO: case OP_TM_STREAM:
       case OP_T_NEG: case OP_DATAPTR: case OP_HAT: case OP_ZERO: case OP_GENERATOR: case OP_T_GENERATOR_M:
+      case OP_M_SETTERS: case OP_TM_BLOCKSET: case OP_T_ACCESSORS:
         return T_EXACT;
       case OP_INTERP_SLERP: case OP_INTERP_CUBIC: case OP_INTERP_SMOOTH: case OP_AVG_BIINV: case OP_AVG: case OP_AVG_FL:
       case OP_AVG_FR: case OP_DECASTELJAU:
